@@ -25,7 +25,8 @@ Definition unalias (t : term) : term :=
 (* terms that are not statements / selectables (those are the subject of C10) *)
 Definition plain_term (t : term) : bool :=
   match t with
-  | TQuery _ | TSetOp _ _ _ _ _ _ | TTable _ _ _ | TAliased _ _ | TStar _ _ | TInterval _ | TRawStr _ => false
+  | TQuery _ | TSetOp _ _ _ _ _ _ | TTable _ _ _ | TAliased _ _ | TStar _ _ | TInterval _ | TRawStr _
+  | TCreate _ _ _ _ _ _ _ _ _ _ | TDrop _ _ => false
   | _ => true
   end.
 
